@@ -33,19 +33,23 @@ Definition truthy_s (x : option str) : option str := match x with Some [] => Non
 
 (* ------------------------------------------------------------------ schema objects *)
 
-(* sqlalchemy Column, the attributes CREATE TABLE / ADD COLUMN spell *)
-Record column := mkCol { c_name : str; c_type : tok; c_nullable : bool; c_default : option tok; c_comment : option str }.
+(* sqlalchemy Column, the attributes CREATE TABLE / ADD COLUMN spell, and the unique= / index= flags that make
+   Table() (hence add_column / create_table) produce a UniqueConstraint / Index of their own *)
+Record column := mkCol { c_name : str; c_type : tok; c_nullable : bool; c_default : option tok; c_comment : option str;
+                         c_unique : bool; c_index : bool }.
+(* schemaobj.table with _constraints_included: `c.unique = c.index = False` *)
+Definition clear_flags (c : column) : column := mkCol (c_name c) (c_type c) (c_nullable c) (c_default c) (c_comment c) false false.
 
 Record fkopts := mkFkO { fo_onupdate : option str; fo_ondelete : option str; fo_initially : option str;
                          fo_match : option str; fo_deferrable : option bool }.
 
-(* sqlalchemy constraint objects attached to their (parent) table *)
+(* sqlalchemy constraint objects attached to their (parent) table; kw = dialect_kwargs token *)
 Inductive constr :=
-| CPk (name : option str) (table : str) (schema : option str) (cols : list str)
-| CUq (name : option str) (table : str) (schema : option str) (cols : list str) (deferrable : option bool) (initially : option str)
+| CPk (name : option str) (table : str) (schema : option str) (cols : list str) (kw : tok)
+| CUq (name : option str) (table : str) (schema : option str) (cols : list str) (deferrable : option bool) (initially : option str) (kw : tok)
 | CFk (name : option str) (table : str) (schema : option str) (cols : list str)
-      (rtable : str) (rschema : option str) (rcols : list str) (o : fkopts)
-| CCk (name : option str) (table : str) (schema : option str) (cond : tok).
+      (rtable : str) (rschema : option str) (rcols : list str) (o : fkopts) (kw : tok)
+| CCk (name : option str) (table : str) (schema : option str) (cond : tok) (kw : tok).
 
 (* index expressions: a column name or a text()/expression token *)
 Inductive iexpr := IxCol (n : str) | IxText (t : tok).
@@ -54,20 +58,21 @@ Inductive iexpr := IxCol (n : str) | IxText (t : tok).
 Record index := mkIdx { i_name : option str; i_table : str; i_schema : option str; i_exprs : list iexpr; i_unique : bool; i_kw : tok }.
 
 (* sqlalchemy Table: name, schema, columns, the non-type-bound constraints (an empty primary key
-   constraint is not listed), comment, prefixes, dialect keyword token *)
-Record tdesc := mkT { t_name : str; t_schema : option str; t_cols : list column; t_cons : list constr;
+   constraint is not listed), the indexes (explicit Index elements and those made by index=True flags),
+   comment, prefixes, dialect keyword token *)
+Record tdesc := mkT { t_name : str; t_schema : option str; t_cols : list column; t_cons : list constr; t_idx : list index;
                       t_comment : option str; t_prefixes : list str; t_kw : tok }.
 
 (* ------------------------------------------------------------------ operation objects *)
 
 (* the AddConstraintOp subclasses *)
 Inductive addcons :=
-| CreatePrimaryKeyOp (name : option str) (table : str) (cols : list str) (schema : option str)
+| CreatePrimaryKeyOp (name : option str) (table : str) (cols : list str) (schema : option str) (kw : tok)
 | CreateUniqueConstraintOp (name : option str) (table : str) (cols : list str) (schema : option str)
-                           (deferrable : option bool) (initially : option str)                       (* kw *)
+                           (deferrable : option bool) (initially : option str) (kw : tok)            (* kw: the rest of **kw *)
 | CreateForeignKeyOp (name : option str) (source referent : str) (local_cols remote_cols : list str)
-                     (source_schema referent_schema : option str) (o : fkopts)                        (* kw *)
-| CreateCheckConstraintOp (name : option str) (table : str) (cond : tok) (schema : option str).
+                     (source_schema referent_schema : option str) (o : fkopts) (kw : tok)
+| CreateCheckConstraintOp (name : option str) (table : str) (cond : tok) (schema : option str) (kw : tok).
 
 Inductive ctype := TyUnique | TyForeignKey | TyPrimary | TyCheck.
 
@@ -120,32 +125,33 @@ Inductive top :=
 (* schemaobj.primary_key_constraint / unique_constraint / foreign_key_constraint / check_constraint *)
 Definition to_constraint (a : addcons) : constr :=
   match a with
-  | CreatePrimaryKeyOp n t cs s => CPk n t s cs
-  | CreateUniqueConstraintOp n t cs s d i => CUq n t s cs d i
-  | CreateForeignKeyOp n src ref lc rc ss rs o => CFk n src ss lc ref rs rc o
-  | CreateCheckConstraintOp n t c s => CCk n t s c
+  | CreatePrimaryKeyOp n t cs s k => CPk n t s cs k
+  | CreateUniqueConstraintOp n t cs s d i k => CUq n t s cs d i k
+  | CreateForeignKeyOp n src ref lc rc ss rs o k => CFk n src ss lc ref rs rc o k
+  | CreateCheckConstraintOp n t c s k => CCk n t s c k
   end.
 
-(* AddConstraintOp.from_constraint dispatching on __visit_name__; the `if x:` filters *)
+(* AddConstraintOp.from_constraint dispatching on __visit_name__; the `if x:` filters
+   (deferrable is kept whenever it `is not None`) *)
 Definition from_constraint (c : constr) : addcons :=
   match c with
-  | CPk n t s cs => CreatePrimaryKeyOp n t cs s
-  | CUq n t s cs d i => CreateUniqueConstraintOp n t cs s (truthy_b d) (truthy_s i)
-  | CFk n t s cs rt rs rcs o =>
+  | CPk n t s cs k => CreatePrimaryKeyOp n t cs s k
+  | CUq n t s cs d i k => CreateUniqueConstraintOp n t cs s d (truthy_s i) k
+  | CFk n t s cs rt rs rcs o k =>
       CreateForeignKeyOp n t rt cs rcs s rs
         (mkFkO (truthy_s (fo_onupdate o)) (truthy_s (fo_ondelete o)) (truthy_s (fo_initially o))
-               (truthy_s (fo_match o)) (truthy_b (fo_deferrable o)))
-  | CCk n t s c => CreateCheckConstraintOp n t c s
+               (truthy_s (fo_match o)) (fo_deferrable o)) k
+  | CCk n t s c k => CreateCheckConstraintOp n t c s k
   end.
 
 Definition constr_type (c : constr) : ctype :=
-  match c with CPk _ _ _ _ => TyPrimary | CUq _ _ _ _ _ _ => TyUnique | CFk _ _ _ _ _ _ _ _ => TyForeignKey | CCk _ _ _ _ => TyCheck end.
+  match c with CPk _ _ _ _ _ => TyPrimary | CUq _ _ _ _ _ _ _ => TyUnique | CFk _ _ _ _ _ _ _ _ _ => TyForeignKey | CCk _ _ _ _ _ => TyCheck end.
 Definition constr_name (c : constr) : option str :=
-  match c with CPk n _ _ _ => n | CUq n _ _ _ _ _ => n | CFk n _ _ _ _ _ _ _ => n | CCk n _ _ _ => n end.
+  match c with CPk n _ _ _ _ => n | CUq n _ _ _ _ _ _ => n | CFk n _ _ _ _ _ _ _ _ => n | CCk n _ _ _ _ => n end.
 Definition constr_table (c : constr) : str :=
-  match c with CPk _ t _ _ => t | CUq _ t _ _ _ _ => t | CFk _ t _ _ _ _ _ _ => t | CCk _ t _ _ => t end.
+  match c with CPk _ t _ _ _ => t | CUq _ t _ _ _ _ _ => t | CFk _ t _ _ _ _ _ _ _ => t | CCk _ t _ _ _ => t end.
 Definition constr_schema (c : constr) : option str :=
-  match c with CPk _ _ s _ => s | CUq _ _ s _ _ _ => s | CFk _ _ s _ _ _ _ _ => s | CCk _ _ s _ => s end.
+  match c with CPk _ _ s _ _ => s | CUq _ _ s _ _ _ _ => s | CFk _ _ s _ _ _ _ _ _ => s | CCk _ _ s _ _ => s end.
 
 (* DropConstraintOp.from_constraint *)
 Definition drop_from_constraint (c : constr) : op :=
@@ -163,11 +169,11 @@ Definition optstr_eqb (a b : option str) : bool :=
    A self-referential foreign key refers to the very Table object that is renamed. *)
 Definition retarget (n : option str) (t : str) (s : option str) (c : constr) : constr :=
   match c with
-  | CPk _ _ _ cs => CPk n t s cs
-  | CUq _ _ _ cs d i => CUq n t s cs d i
-  | CFk _ t0 s0 cs rt rs rcs o =>
-      if list_eqb N.eqb t0 rt && optstr_eqb s0 rs then CFk n t s cs t s rcs o else CFk n t s cs rt rs rcs o
-  | CCk _ _ _ c => CCk n t s c
+  | CPk _ _ _ cs k => CPk n t s cs k
+  | CUq _ _ _ cs d i k => CUq n t s cs d i k
+  | CFk _ t0 s0 cs rt rs rcs o k =>
+      if list_eqb N.eqb t0 rt && optstr_eqb s0 rs then CFk n t s cs t s rcs o k else CFk n t s cs rt rs rcs o k
+  | CCk _ _ _ c k => CCk n t s c k
   end.
 
 Definition no_table : str := [110; 111; 95; 116; 97; 98; 108; 101]%N.   (* "no_table" *)
@@ -195,24 +201,34 @@ Definition drop_to_index (name : option str) (table : option str) (schema : opti
 (* schemaobj.table copies a constraint onto the new Table *)
 Definition onto_table (t : str) (s : option str) (c : constr) : constr :=
   match c with
-  | CPk n _ _ cs => CPk n t s cs
-  | CUq n _ _ cs d i => CUq n t s cs d i
-  | CFk n _ _ cs rt rs rcs o => CFk n t s cs rt rs rcs o
-  | CCk n _ _ c => CCk n t s c
+  | CPk n _ _ cs k => CPk n t s cs k
+  | CUq n _ _ cs d i k => CUq n t s cs d i k
+  | CFk n _ _ cs rt rs rcs o k => CFk n t s cs rt rs rcs o k
+  | CCk n _ _ c k => CCk n t s c k
   end.
 
-(* CreateTableOp.to_table *)
-Definition create_to_table (t : tdesc) : tdesc :=
-  mkT (t_name t) (t_schema t) (t_cols t) (map (onto_table (t_name t) (t_schema t)) (t_cons t))
+Definition flags_off (ci : bool) (l : list column) : list column := if ci then map clear_flags l else l.
+Definition index_onto (t : str) (s : option str) (i : index) : index :=
+  mkIdx (i_name i) t s (i_exprs i) (i_unique i) (i_kw i).
+
+(* CreateTableOp.to_table.  The harness hands over the description of the Table that to_table() returns (so the
+   UniqueConstraint / Index objects that unique= / index= flags produce when _constraints_included is false are
+   already listed in t_cons / t_idx); this function is therefore idempotent. *)
+Definition create_to_table (t : tdesc) (ci : bool) : tdesc :=
+  mkT (t_name t) (t_schema t) (flags_off ci (t_cols t)) (map (onto_table (t_name t) (t_schema t)) (t_cons t))
+      (map (index_onto (t_name t) (t_schema t)) (t_idx t))
       (t_comment t) (t_prefixes t) (t_kw t).
-(* DropTableOp.to_table *)
+(* DropTableOp.to_table: only columns and constraints of the stored original; no Index is carried.
+   (A stored original with _constraints_included false and flagged columns is outside the model.) *)
 Definition drop_to_table (name : str) (schema : option str) (comment : option str) (prefixes : list str)
            (kw : tok) (rev : option trev) : tdesc :=
-  mkT name schema (match rev with Some r => tr_cols r | None => [] end)
+  mkT name schema (match rev with Some r => flags_off (tr_ci r) (tr_cols r) | None => [] end)
       (match rev with Some r => map (onto_table name schema) (tr_cons r) | None => [] end)
+      []
       comment prefixes kw.
-(* CreateTableOp.from_table *)
-Definition create_from_table (t : tdesc) : op := CreateTableOp t None true.
+(* CreateTableOp.from_table: list(table.c) + table.constraints; table.indexes are not taken *)
+Definition create_from_table (t : tdesc) : op :=
+  CreateTableOp (mkT (t_name t) (t_schema t) (t_cols t) (t_cons t) [] (t_comment t) (t_prefixes t) (t_kw t)) None true.
 (* DropTableOp.from_table *)
 Definition drop_from_table (t : tdesc) : op :=
   DropTableOp (t_name t) (t_schema t) None (t_comment t) (t_prefixes t) (t_kw t)
@@ -220,7 +236,7 @@ Definition drop_from_table (t : tdesc) : op :=
 
 (* DropColumnOp.to_column: the stored column, else Column(column_name, NULLTYPE) (type token 0) *)
 Definition drop_to_column (cn : str) (rev : option (str * column * option str)) : column :=
-  match rev with Some (_, c, _) => c | None => mkCol cn 0%N true None None end.
+  match rev with Some (_, c, _) => c | None => mkCol cn 0%N true None None false false end.
 
 (* ------------------------------------------------------------------ reverse *)
 
@@ -254,7 +270,7 @@ Definition reverse (o : op) : res op :=
       end
   | CreateIndexOp c => Ok (drop_from_index (to_index c))
   | DropIndexOp n t s ie ku kw rev => Ok (CreateIndexOp (from_index (drop_to_index n t s ku kw rev)))
-  | CreateTableOp t ine ci => Ok (drop_from_table (create_to_table t))
+  | CreateTableOp t ine ci => Ok (drop_from_table (create_to_table t ci))
   | DropTableOp n s ie c p kw rev => Ok (create_from_table (drop_to_table n s c p kw rev))
   | CreateTableCommentOp t c e s =>
       match e with
@@ -359,14 +375,18 @@ Inductive ddl :=
 | DExecute (sql : tok)
 | DBulkInsert (table : str) (rows : tok).
 
+(* inside a Table the flags themselves spell nothing: what they produced is listed in t_cons / t_idx *)
+Definition erase_flags (t : tdesc) : tdesc :=
+  mkT (t_name t) (t_schema t) (map clear_flags (t_cols t)) (t_cons t) (t_idx t) (t_comment t) (t_prefixes t) (t_kw t).
+
 Definition ddl_view (o : op) : ddl :=
   match o with
   | AddConstraintOp a => DAddConstraint (to_constraint a)
   | DropConstraintOp n t ty s _ => DDropConstraint n t ty s
   | CreateIndexOp c => DCreateIndex (to_index c) (truthy_b (ci_if_not_exists c))
   | DropIndexOp n t s ie ku kw rev => DDropIndex (drop_to_index n t s ku kw rev) (truthy_b ie)
-  | CreateTableOp t ine _ => DCreateTable (create_to_table t) (truthy_b ine)
-  | DropTableOp n s ie c p kw rev => DDropTable (drop_to_table n s c p kw rev) (truthy_b ie)
+  | CreateTableOp t ine ci => DCreateTable (erase_flags (create_to_table t ci)) (truthy_b ine)
+  | DropTableOp n s ie c p kw rev => DDropTable (erase_flags (drop_to_table n s c p kw rev)) (truthy_b ie)
   | CreateTableCommentOp t c _ s => DCreateTableComment t s c
   | DropTableCommentOp t _ s => DDropTableComment t s
   | AlterColumnOp a => DAlterColumn a
